@@ -174,6 +174,75 @@ def replay_c06(obname: str, model: Dict[str, Any], info: Any) -> Tuple[bool, str
     return bool(bad), f"{kind} depth={depth} shape={shape} taus={taus}: " + "; ".join(bad or ["matches closed form"])
 
 
+HISTORY_DTYPES = ("bfloat16", "float16", "float32", "float64")
+
+
+def h_dtype_history(kind: str):
+    """One process, one concrete tau, the same residual layer applied to tensors of increasing precision: every layer must
+    still satisfy the closed form, and no scale factor prepared for an earlier (lower-precision) call may reach a later gradient."""
+    def h(c: Ctx) -> None:
+        import unit_scaling.functional as U
+        mk = fo.SymMk(c)
+        tau = 0.3
+        with Session():
+            for dt in HISTORY_DTYPES:
+                info = {"kind": kind, "history": True, "dtype": dt}
+                x = mk.tensor(f"x_{dt}", fo._lead(mk, 2), fo.DT[dt])
+                f = branch(f"f_{dt}")
+                if kind == "apply":
+                    y = U.residual_apply(f, x, tau)
+                else:
+                    r, sk = U.residual_split(x, tau)
+                    y = U.residual_add(f(r), sk, tau)
+                d = (1 + tau * tau) ** 0.5
+                xo = STensor(x.lc, x.shape, x.meta, requires_grad=True)
+                yo = xo * (1 / d) + f(xo) * (tau / d)
+                _eq_lc(c, f"{dt} after lower precisions: output = (x + tau f(x)) / sqrt(1 + tau^2)", y.lc, yo.lc, info)
+                G = STensor.leaf(f"G_{dt}", y.shape, y.dtype)
+                x.grad = None
+                y.backward(G)
+                yo.backward(G)
+                _eq_lc(c, f"{dt} after lower precisions: gradient at x = derivative of that expression", x.grad, xo.grad, info)
+            ev = list(Mode.events)
+            c.oblige("every scale factor is carried in the precision of the tensor it multiplies (no factor prepared for an earlier, lower-precision call is reused)",
+                     z3.BoolVal(not ev), info={"kind": kind, "history": True, "mismatch": "; ".join(sorted(set(ev)))})
+
+    return h
+
+
+def replay_history(obname: str, model: Dict[str, Any], info: Any) -> Tuple[bool, str]:
+    import unit_scaling.functional as U
+    kind, tau = info["kind"], 0.3
+    gen = torch.Generator().manual_seed(0)
+    W = torch.randn(5, 5, generator=gen, dtype=torch.float64)
+    worst = {}
+    for dt in HISTORY_DTYPES:
+        dtype = fo.DT[dt]
+        x = torch.randn(4, 5, generator=gen, dtype=torch.float64).to(dtype).requires_grad_(True)
+        w = W.to(dtype)
+        f = lambda t: torch.tanh(t @ w)  # noqa: E731
+        if kind == "apply":
+            y = U.residual_apply(f, x, tau)
+        else:
+            r, sk = U.residual_split(x, tau)
+            y = U.residual_add(f(r), sk, tau)
+        g = torch.randn(y.shape, generator=gen, dtype=torch.float64).to(dtype)
+        (gx,) = torch.autograd.grad(y, x, g)
+        # reference in float64 on the same (already rounded) data
+        xo = x.detach().double().requires_grad_(True)
+        yo = (xo + tau * torch.tanh(xo @ w.double())) / (1 + tau * tau) ** 0.5
+        (gxo,) = torch.autograd.grad(yo, xo, g.double())
+        worst[dt] = ((gx.double() - gxo).abs().max() / gxo.abs().max()).item()
+    # the float64 call must be exact to float64 rounding, the float32 call to float32 rounding
+    bad = [f"{dt}: relative gradient error {worst[dt]:.3g}" for dt, lim in (("float64", 1e-12), ("float32", 2e-5)) if worst[dt] > lim]
+    return bool(bad), f"{kind}, tau={tau}, dtypes in the order {HISTORY_DTYPES}: " + "; ".join(bad or [f"gradients exact to their own precision ({worst})"])
+
+
+def task_history(kind: str, timeout: float) -> List[Dict[str, Any]]:
+    torch.set_num_threads(1)
+    return discharge("C06", f"{kind}[dtype history]", h_dtype_history(kind), replay_history, timeout, base_info={"kind": kind, "history": True})
+
+
 def task(kind: str, depth: int, rank: int, dtype: str, timeout: float) -> List[Dict[str, Any]]:
     torch.set_num_threads(1)
     return discharge("C06", f"{kind}[depth={depth},rank={rank},{dtype}]", h_stack(kind, depth, rank, dtype), replay_c06, timeout)
@@ -191,14 +260,17 @@ def run(rep: Report, only: str = "") -> None:
                 continue
             for rank, dt in (((0, "float64"), (1, "float32"), (2, "bfloat16"), (3, "float16")) if (thorough and d <= 2) else ((2, "float32"),)):
                 tasks.append((task, (kind, d, rank, dt, timeout)))
+    tasks += [(task_history, ("split-add", timeout)), (task_history, ("apply", timeout))]
     if only:
         tasks = [t for t in tasks if only in repr(t[1])]
-    tasks.sort(key=lambda t: -t[1][1])
+    tasks.sort(key=lambda t: -t[1][1] if isinstance(t[1][1], int) else 0)
     rep.extend(run_tasks(tasks))
     rep.functions = [describe_function(f) for f in (U.residual_split, U.residual_add, U.residual_apply)] + fo.encoded_functions()[-4:]
     rep.bounds = {"tau": "[1e-3, 1e3] per layer (symbolic reals)", "x": "any shape (symbolic dims), any values",
                   "branch": "uninterpreted differentiable map with its own vjp symbol: the result holds for every branch function at once",
                   "stacks": f"sequential (split/f/add and residual_apply) depth {list(depths)}, nested depth <= {4 if thorough else 2}",
+                  "dtype history": "one concrete tau (0.3), the same layer on bfloat16, float16, float32, float64 tensors in that order in one process: closed form per call + "
+                                   "no scalar tensor of lower precision than the tensor it multiplies",
                   "outside": "floats as reals"}
     rep.assumptions = ["closed form built with the engine's own tensor arithmetic and differentiated by the mini-autograd (torch.autograd's accumulation contract)"]
     rep.trusted = ["z3 NRA portfolio", "vf/sym/tensor.py"]
@@ -206,4 +278,6 @@ def run(rep: Report, only: str = "") -> None:
 
 
 def replay(data: Dict[str, Any]) -> Tuple[bool, str]:
+    if (data.get("info") or {}).get("history"):
+        return replay_history(data["obligation"], data["model"], data.get("info") or {})
     return replay_c06(data["obligation"], data["model"], data.get("info") or {})
